@@ -1,6 +1,24 @@
 (* C20 — property theorems only.  Each is closed by [exact] of a lemma from proofs/C20_Proofs.v.
    [guard_locked] / [guard_as_coded] are tied to TrajectoryStore.__init__ in link/C20_Link.v (the text is
-   re-extracted on every run) and by the exhaustive line-level scheduler of harness/c20.py. *)
+   re-extracted on every run) and by the exhaustive statement-level scheduler of harness/c20.py.
+
+   Residual assumptions of the model (none of them is a Coq axiom; they are what the tie cannot check):
+   - [EvOk t] means "a constructor call of thread t passed the guard" — whether the rest of the constructor
+     then succeeds is irrelevant to who may own stores (a thread whose first constructor fails after the
+     guard is the owner all the same);
+   - acquiring the class-level lock is one atomic test-and-set (threading.Lock), releasing it one atomic
+     write; a waiter never proceeds without the lock (no timeout) — the translator accepts only
+     `with <Class>.<lock>:` on a class-level threading.Lock()/RLock();
+   - thread identities [tid] are distinct for distinct threads for as long as the owner is recorded: true for
+     thread OBJECTS (the repaired code, F-C20a) — the recorded object keeps the thread alive as an object; not
+     true for threading.get_ident() values after a thread has exited (checked by the sequential-exit cases).
+     The main thread is just another [tid]: the theorems quantify over all thread ids, and the scheduler
+     races it against worker threads as well;
+   - one STATEMENT of the guard per step: justified by [C20_statement_heads_access_once] below (each
+     statement head touches the shared attribute at most once; the translator checks that the attribute
+     occurs exactly once in each guard statement head), under CPython's GIL making a single attribute read
+     or write atomic;
+   - close() and every other method leave active_in_thread alone (checked by the translator). *)
 From Coq Require Import List Bool Arith.
 From AV Require Import model.C20_Model proofs.C20_Proofs.
 Import ListNotations.
@@ -68,6 +86,17 @@ Theorem C20_first_finished_call_succeeds :
     log st <> [] -> exists t, last (log st) (EvRefused 0) = EvOk t.
 Proof. exact locked_first_finished_call_succeeds. Qed.
 Print Assumptions C20_first_finished_call_succeeds.
+
+(* Statement granularity: the head of every guard statement accesses the shared attribute at most once, and the
+   owner changes only in a step that executes the assignment. *)
+Theorem C20_statement_heads_access_once : forall s, head_accesses s <= 1.
+Proof. exact statement_heads_access_once. Qed.
+Print Assumptions C20_statement_heads_access_once.
+
+Theorem C20_owner_written_only_by_the_assignment :
+  forall prog t st, owner (fst (step prog t st)) <> owner st -> exists k, t_cont (thr st t) = FStmt GSet :: k.
+Proof. exact step_changes_owner_only_by_set. Qed.
+Print Assumptions C20_owner_written_only_by_the_assignment.
 
 (* The guard as the property specifies it (check and set as one indivisible step), on the very
    statements of the source: any order of whole calls keeps a single owner.  This is why the
